@@ -532,6 +532,7 @@ impl FileSystem for Vfs {
                     size,
                     offset,
                     &mut |mut dir_entry| {
+                        vfs_yield!("ld_mp");
                         match self.mountpoints.load().get(&dir_entry.ino) {
                             // cross mountpoint, return mount root entry
                             Some(mnt) => {
@@ -579,6 +580,7 @@ impl FileSystem for Vfs {
                 size,
                 offset,
                 &mut |mut dir_entry, mut entry| {
+                    vfs_yield!("ld_mp");
                     match self.mountpoints.load().get(&dir_entry.ino) {
                         Some(mnt) => {
                             // cross mountpoint, return mount root entry
@@ -648,6 +650,7 @@ impl FileSystem for Vfs {
         // file system mounted on "/" if there is one (see get_real_rootfs()).
         let mut fs_idx = nodeid.fs_idx();
         if nodeid.is_pseudo_fs() && nodeid.ino() == ROOT_ID {
+            vfs_yield!("ld_mp");
             if let Some(mnt) = self.mountpoints.load().get(&ROOT_ID) {
                 fs_idx = mnt.fs_idx;
             }
